@@ -899,6 +899,24 @@ pub fn gen_eq_probe(rng: &mut Rng, start0: &Pos) -> Script {
             g.step(format!("alt {}", codec::raw_fmt(&r)));
             g.step("eq".to_string());
         }
+        // same start, same moves, stored outcomes that differ: unfinished vs finished, and two DIFFERENT finished ones
+        if !g.sim.cur.is_finished() {
+            g.step("clone".to_string());
+            let a = random_outcome_token(g.rng);
+            let mut b = random_outcome_token(g.rng);
+            let mut guard = 0;
+            while b == a && guard < 20 {
+                b = random_outcome_token(g.rng);
+                guard += 1;
+            }
+            g.step(format!("so {}", a));
+            g.step("eq".to_string());
+            g.step("swap".to_string());
+            g.step(format!("so {}", b));
+            g.step("eq".to_string());
+            g.step("swap".to_string());
+            g.step("eq".to_string());
+        }
     }
     g.emit("st".to_string());
     let final_len = g.sim.cur.len();
